@@ -236,6 +236,39 @@ func (n *minNode) Next() (bool, error) {
 						return value
 					},
 				)
+
+			case []float32:
+				collectionMin, err = reduceItems(
+					childCollection,
+					&source,
+					lessN[float32],
+					nil,
+					func(childItem float32, value *big.Float) *big.Float {
+						res := big.NewFloat(float64(childItem))
+						if value == nil || res.Cmp(value) < 0 {
+							return res
+						}
+						return value
+					},
+				)
+
+			case []immutable.Option[float32]:
+				collectionMin, err = reduceItems(
+					childCollection,
+					&source,
+					lessO[float32],
+					nil,
+					func(childItem immutable.Option[float32], value *big.Float) *big.Float {
+						if !childItem.HasValue() {
+							return value
+						}
+						res := big.NewFloat(float64(childItem.Value()))
+						if value == nil || res.Cmp(value) < 0 {
+							return res
+						}
+						return value
+					},
+				)
 			}
 			if err != nil {
 				return false, err
